@@ -66,6 +66,8 @@ class Check:
     def program(self):
         if self.prog is None:
             self.prog = ir.load_program(self.tier)
+            for u, why in sorted(getattr(self.prog, "skipped_units", {}).items()):
+                self.assume("translation unit %s is %s" % (u, why))
         return self.prog
 
     def rule(self, rid, title, decides=""):
